@@ -113,12 +113,38 @@ func guessSpec(t *rapid.T) *hist.Spec {
 	return sp
 }
 
+// defectsSpec: schemas that are wrong in two or three ways at once (which defect is reported, and
+// with which message, must not depend on the order some table is walked in).
+func defectsSpec(t *rapid.T) *hist.Spec {
+	sp := &hist.Spec{Kind: "schema"}
+	sp.Schema = lib.Spec{Schema: rapid.SampledFrom([]string{
+		`"a@b.c" // {type: "email", minLength: 1, maxLength: 100}`,
+		`"a@b.c" // {maxLength: 100, regex: "a", type: "email", minLength: 1}`,
+		`"2021-01-01" // {type: "date", regex: "^2", maxLength: 10}`,
+		`"http://a.b" // {minLength: 1, type: "uri", regex: "a", maxLength: 50}`,
+		`"550e8400-e29b-41d4-a716-446655440000" // {type: "uuid", maxLength: 36, minLength: 36}`,
+		`1 // {foo: 1, bar: 2, baz: 3}`,
+		`1 // {minLength: 1, maxLength: 2, regex: "a", minItems: 1}`,
+		"{\n  \"a\": @x,\n  \"b\": @y,\n  \"c\": @z\n}",
+		"{\n  \"a\": 1, // {minLength: 1, regex: \"a\"}\n  \"b\": \"s\" // {min: 1, max: 2, precision: 1}\n}",
+		`1.5 // {precision: 1, minLength: 2, exclusiveMinimum: true, exclusiveMaximum: true}`,
+		"{ // {minItems: 1, maxItems: 2, regex: \"a\"}\n  \"a\": 1\n}",
+		"[ // {additionalProperties: true, min: 1, allOf: \"@x\"}\n  1\n]",
+		`true // {or: [{type: "email", minLength: 1, regex: "a"}, {type: "boolean"}]}`,
+	}).Draw(t, "defects")}
+	sp.Docs = []string{"1", `"a@b.c"`, `{"a":1,"b":"s"}`}
+	return sp
+}
+
 func TestMapOrders(t *testing.T) {
 	run.SkipIfReplaying(t)
 	defer run.Done(t, chk)
 	rapid.Check(t, func(t *rapid.T) {
 		var sp *hist.Spec
-		if k := rapid.IntRange(0, 7).Draw(t, "overlap"); k <= 1 {
+		if k := rapid.IntRange(0, 8).Draw(t, "overlap"); k == 8 {
+			sp = defectsSpec(t)
+			run.Label("family:several-defects-at-once")
+		} else if k <= 1 {
 			sp = overlapSpec(t)
 			run.Label("family:overlap-biased")
 		} else if k == 2 {
